@@ -56,3 +56,7 @@ func (r *vpByteReader) ReadByte() (byte, error) {
 	r.pos++
 	return c, nil
 }
+
+type vpBuf struct{ b []byte }
+
+func (w *vpBuf) Write(p []byte) (int, error) { w.b = append(w.b, p...); return len(p), nil }
